@@ -307,6 +307,8 @@ class Timer(ModeDevice):
 
         self.running = False
 
+        # the un-pause of an earlier timed pause must not end this pause
+        self.delay.remove('pause')
         self._remove_system_timer()
         self.machine.events.post('timer_' + self.name + '_paused',
                                  ticks=self.ticks,
